@@ -13,11 +13,29 @@
 (*   * S2C: with Record = TRUE every history is carried in hist and printed when complete;      *)
 (*     the driver replays it on real objects (writes applied in place, the object read back     *)
 (*     after each write must project to the descriptor TLC computed) and compares each call.    *)
+(*                                                                                             *)
+(* SESSIONS (sess = TRUE).  "A call has no memory": the answer of eq / in_ depends on the two   *)
+(* values handed in and on nothing that was compared before - in this call sequence, with these *)
+(* objects or with others.  A session configuration is a group of four live objects that         *)
+(* COLLIDE on whatever a memo inside eq could be keyed on: one class (pair of types), one        *)
+(* length, one text, ==-equal across types - a value, its structural copy, a shorter one (for    *)
+(* pandas objects: the comparison of the indexes raises inside eq), one with another cell.       *)
+(* Actions of a session: Call(i, j) for EVERY ordered pair (i = j: the very same object),        *)
+(* CallIn(i) = in_(obj_i, [the others]); between two calls the caller does nothing (Skip) or      *)
+(* DROPS an operand of the last call and builds a new object in its place (Rebuild: the new      *)
+(* object may get the address of the dead one), then repeats the call; with Full = TRUE           *)
+(* (simulated longer sessions) any rebuild, any in-place write and any next call.                *)
+(*   * law: as above - what is pinned for the current descriptors, whatever was called before;   *)
+(*   * mechanism models (inside TLC only): the identity-keyed memo above, and cmemo - a memo      *)
+(*     keyed by the pair of CLASSES of the operands holding the first answer given for it (what   *)
+(*     "these two types do not support ==" amounts to once the first such comparison failed on    *)
+(*     values); TLC must REFUTE ClassMemoAdmitted (MC_EqHist_cmemo.cfg, must_fail).               *)
 EXTENDS Eq, TLC, Json, SequencesExt
-CONSTANTS Depth, Record, Wide
+CONSTANTS Depth, Record, Wide,
+          Full      \* sessions: any caller action between two calls, any next call, Depth entries (for simulation)
 
-VARIABLES objs, hist, n, memo, first
-vars == <<objs, hist, n, memo, first>>
+VARIABLES objs, hist, n, memo, first, sess, last, cmemo
+vars == <<objs, hist, n, memo, first, sess, last, cmemo>>
 
 I(k) == VInt(k)
 F(p, q) == VFlt(p, q)
@@ -41,6 +59,39 @@ Configs ==
      <<VSer("int64", <<VStr("a"), VStr("b")>>, <<I(1), I(2)>>), VSer("int64", <<VStr("a"), VStr("b")>>, <<I(1), I(2)>>)>>,
      <<VView("float64", 2, <<F(1, 1), VNaN(0), F(1, 1), VNaN(0), F(2, 1)>>, 0, <<3>>, <<1>>), VView("float64", 2, <<F(1, 1), VNaN(0), F(1, 1), VNaN(0), F(2, 1)>>, 2, <<3>>, <<1>>)>>} ELSE {})
 
+\* session configurations: four objects that collide on class / length / text / ==
+D1 == <<737425, 0, 0>>
+D2 == <<737426, 3600, 0>>
+RI3 == <<I(0), I(1), I(2)>>
+TS2 == <<VTs(D1[1], D1[2], D1[3]), VTs(D2[1], D2[2], D2[3])>>
+S3(a, b, c) == VSer("float64", RI3, <<a, b, c>>)
+FAB(ix, cells) == VFrm("float64", ix, AB, cells)
+RecOf(fr, k) == VLst(<<VDict(<<<<"data", fr>>, <<"n", I(k)>>>>)>>)
+SessConfigs ==
+    {\* Series on a RangeIndex: the value, a copy, one row less (comparing the indexes raises), another cell
+     <<S3(F(1, 1), F(2, 1), F(3, 1)), S3(F(1, 1), F(2, 1), F(3, 1)), VSer("float64", RI2, <<F(1, 1), F(2, 1)>>), S3(F(1, 1), F(2, 1), F(7, 1))>>,
+     \* frames, with a NaN
+     <<FAB(RI2, <<F(1, 1), VNaN(0), F(3, 1), F(4, 1)>>), FAB(RI2, <<F(1, 1), VNaN(0), F(3, 1), F(4, 1)>>), FAB(<<I(0)>>, <<F(1, 1), VNaN(0)>>), FAB(RI2, <<F(1, 1), VNaN(0), F(3, 1), F(7, 1)>>)>>,
+     \* Series on a DatetimeIndex / on labels
+     <<VSer("int64", TS2, <<I(1), I(2)>>), VSer("int64", TS2, <<I(1), I(2)>>), VSer("int64", <<TS2[1]>>, <<I(1)>>), VSer("int64", <<TS2[2], TS2[1]>>, <<I(1), I(2)>>)>>,
+     <<VSer("int64", AB, <<I(1), I(2)>>), VSer("int64", AB, <<I(1), I(2)>>), VSer("int64", <<VStr("a")>>, <<I(1)>>), VSer("int64", <<VStr("a"), VStr("c")>>, <<I(1), I(2)>>)>>,
+     \* the frame inside a record inside a list
+     <<RecOf(FAB(RI2, <<F(1, 1), F(2, 1), F(3, 1), F(4, 1)>>), 1), RecOf(FAB(RI2, <<F(1, 1), F(2, 1), F(3, 1), F(4, 1)>>), 1), RecOf(FAB(<<I(0)>>, <<F(1, 1), F(2, 1)>>), 1), RecOf(FAB(RI2, <<F(1, 1), F(2, 1), F(3, 1), F(4, 1)>>), 2)>>,
+     \* arrays: one length, another shape, another cell
+     <<VArr("int64", <<2>>, <<I(1), I(2)>>), VArr("int64", <<2>>, <<I(1), I(2)>>), VArr("int64", <<3>>, <<I(1), I(2), I(1)>>), VArr("int64", <<2>>, <<I(1), I(7)>>)>>,
+     \* one text, ==-equal across types: 1, 1.0, "1", np.int64(1)
+     <<I(1), F(1, 1), VStr("1"), NpS("int64", I(1))>>,
+     \* lists and a tuple of one length and one text
+     <<VLst(<<I(1), I(2)>>), VLst(<<I(1), I(2)>>), VTup(<<I(1), I(2)>>), VLst(<<I(1), I(7)>>)>>}
+    \cup (IF Wide THEN
+    {<<VDict(<<<<"a", I(1)>>, <<"b", I(2)>>>>), VDictO(<<2, 1>>, <<<<"a", I(1)>>, <<"b", I(2)>>>>), VSub("Dict", <<<<"a", I(1)>>, <<"b", I(2)>>>>), VDict(<<<<"a", I(1)>>, <<"b", I(7)>>>>)>>,
+     <<VTs(D1[1], D1[2], D1[3]), VDt(D1[1], D1[2], D1[3]), VTs(D2[1], D2[2], D2[3]), VDate(D1[1])>>,
+     <<VNaN(1), VNaN(2), NpS("float32", VNaN(3)), None>>,
+     <<VSer("object", RI2, <<VLst(<<I(1)>>), None>>), VSer("object", RI2, <<VLst(<<I(1)>>), None>>), VSer("object", <<I(0)>>, <<VLst(<<I(1)>>)>>), VSer("object", RI2, <<VLst(<<I(7)>>), None>>)>>,
+     <<FAB(TS2, <<F(1, 1), F(2, 1), F(3, 1), F(4, 1)>>), FAB(TS2, <<F(1, 1), F(2, 1), F(3, 1), F(4, 1)>>), FAB(<<TS2[1]>>, <<F(1, 1), F(2, 1)>>), VFrm("float64", TS2, <<VStr("a"), VStr("c")>>, <<F(1, 1), F(2, 1), F(3, 1), F(4, 1)>>)>>,
+     <<VArr("object", <<2>>, <<I(1), VStr("a")>>), VArr("object", <<2>>, <<I(1), VStr("a")>>), VArr("object", <<1>>, <<I(1)>>), VArr("object", <<2, 1>>, <<I(1), VStr("a")>>)>>,
+     <<VDict(<<<<"a", S3(F(1, 1), F(2, 1), F(3, 1))>>>>), VDict(<<<<"a", S3(F(1, 1), F(2, 1), F(3, 1))>>>>), VDict(<<<<"a", VSer("float64", RI2, <<F(1, 1), F(2, 1)>>)>>>>), VDict(<<<<"a", S3(F(1, 1), F(2, 1), VNaN(0))>>>>)>>} ELSE {})
+
 \* what may be written into an item of c: something else of the type the carrier holds
 Writes(c) ==
     LET dt == CASE Tag(c) \in {"a", "S", "F"} -> Pay(c)[1] [] Tag(c) = "v" -> VDt_(c) [] OTHER -> "object" IN
@@ -49,28 +100,65 @@ Writes(c) ==
       [] OTHER -> {I(1), I(7), VNaN(9), None}
 IsMapC(c) == Tag(c) \in {"m", "mo", "M", "Mo"}
 NObj == Len(objs)
-\* histories over three objects stop after call - write - call (there are too many of them beyond)
-Bound == IF NObj > 2 THEN 3 ELSE Depth
+\* histories over three or more objects stop after call - write - call (there are too many of them beyond)
+Bound == IF Full THEN Depth ELSE IF NObj > 2 THEN 3 ELSE Depth
 
-Init == /\ objs \in Configs /\ hist = <<>> /\ n = 0 /\ memo = <<>> /\ first = <<>>
+Init == /\ ((objs \in Configs /\ sess = FALSE) \/ (objs \in SessConfigs /\ sess = TRUE))
+        /\ hist = <<>> /\ n = 0 /\ memo = <<>> /\ first = <<>> /\ last = <<>> /\ cmemo = <<>>
         /\ \A k \in 1..Len(objs) : ConcreteOK(objs[k])
 
 Rec(e) == hist' = IF Record THEN Append(hist, e) ELSE hist
 
-\* eq(obj_i, obj_j): the state does not change; the memo keeps the first answer given for the pair of objects
+\* eq(obj_i, obj_j): the state does not change; the memo keeps the first answer given for the pair of objects, cmemo the
+\* first answer given for the pair of their classes
 Answer(i, j) == PinC(objs[i], objs[j])                    \* "T" / "F" / "free"
+ClassOf(i)   == Class(Norm(objs[i]))
+\* after a Rebuild (unless Full) the call that follows is the last call again
+MayCall(c)   == IF last = <<>> THEN TRUE ELSE IF Head(last) # "again" THEN TRUE ELSE Tail(last) = c
 Call(i, j) ==
-    /\ n < Bound /\ n % 2 = 0 /\ i # j
+    /\ n < Bound /\ n % 2 = 0 /\ (i # j \/ sess)
+    /\ MayCall(<<i, j>>)
     /\ Rec([op |-> "eq", i |-> i, j |-> j, ifT |-> ClauseIfTC(objs[i], objs[j]), ifF |-> ClauseIfFC(objs[i], objs[j]), at |-> AtC(objs[i], objs[j])])
     /\ memo' = IF \E m \in 1..Len(memo) : memo[m][1] = <<i, j>> THEN memo ELSE Append(memo, <<<<i, j>>, Answer(i, j)>>)
-    /\ n' = n + 1 /\ UNCHANGED <<objs, first>>
+    /\ cmemo' = IF \E m \in 1..Len(cmemo) : cmemo[m][1] = <<ClassOf(i), ClassOf(j)>> THEN cmemo
+                ELSE Append(cmemo, <<<<ClassOf(i), ClassOf(j)>>, Answer(i, j)>>)
+    /\ last' = <<"eq", i, j>>
+    /\ n' = n + 1 /\ UNCHANGED <<objs, first, sess>>
+
+\* in_(obj_i, [the other objects, in order]): True iff eq says so for one of them; pinned True as soon as one of them is
+\* pinned equal and everything before it is pinned (eq is total: the walk gets there), pinned False when all are pinned unequal
+Others(i) == SelectSeq([k \in 1..NObj |-> k], LAMBDA k : k # i)
+InWant(i) == LET q == Others(i) IN
+             IF \E a \in 1..Len(q) : Answer(i, q[a]) = "T" THEN <<"T">>
+             ELSE IF \A a \in 1..Len(q) : Answer(i, q[a]) = "F" THEN <<"F">> ELSE <<"T", "F">>
+CallIn(i) ==
+    /\ sess /\ n < Bound /\ n % 2 = 0
+    /\ MayCall(<<i>>)
+    /\ Rec([op |-> "in", i |-> i, seq |-> Others(i), want |-> InWant(i)])
+    /\ last' = <<"in", i>>
+    /\ n' = n + 1 /\ UNCHANGED <<objs, memo, cmemo, first, sess>>
 
 Write(i, e, new) ==
-    /\ n < Bound /\ n % 2 = 1
+    /\ n < Bound /\ n % 2 = 1 /\ (~sess \/ Full)
     /\ new # objs[i]
     /\ objs' = [k \in 1..NObj |-> IF k = i THEN new ELSE IF e.op = "set" THEN SeesWrite(objs[k], objs[i], e.k, e.v) ELSE objs[k]]
     /\ Rec(e @@ [i |-> i, now |-> new])
-    /\ n' = n + 1 /\ UNCHANGED <<memo, first>>
+    /\ n' = n + 1 /\ UNCHANGED <<memo, cmemo, first, sess, last>>
+
+\* between two calls of a session the caller does nothing ...
+Skip == /\ sess /\ n < Bound /\ n % 2 = 1
+        /\ n' = n + 1 /\ UNCHANGED <<objs, hist, memo, cmemo, first, sess, last>>
+\* ... or drops object i and builds a NEW object in its place, holding what object j holds now (another value at - possibly -
+\* the address of the dead one); unless Full it is an operand of the last call that goes, and the call is repeated
+Operands(c) == {c[k] : k \in 2..Len(c)}
+Rebuild(i, j) ==
+    /\ sess /\ n < Bound /\ n % 2 = 1 /\ i # j
+    /\ objs[j] # objs[i]
+    /\ (IF Full THEN TRUE ELSE i \in Operands(last))
+    /\ objs' = [objs EXCEPT ![i] = objs[j]]
+    /\ Rec([op |-> "rebuild", i |-> i, now |-> objs[j]])
+    /\ last' = IF Full THEN last ELSE <<"again">> \o Tail(last)
+    /\ n' = n + 1 /\ UNCHANGED <<memo, cmemo, first, sess>>
 
 SetOp(i)   == \E k \in 1..NItems(objs[i]) : \E v \in Writes(objs[i]) :
                  Tag(objs[i]) # "t" /\ Write(i, [op |-> "set", k |-> k, v |-> v], SetItem(objs[i], k, v))
@@ -81,14 +169,19 @@ ReinsOp(i) == \E k \in 1..NItems(objs[i]) : IsMapC(objs[i]) /\ Write(i, [op |-> 
 GrowOp(i)  == Tag(objs[i]) = "l" /\ \/ Write(i, [op |-> "append", v |-> I(7)], Appended(objs[i], I(7)))
                                     \/ (Pay(objs[i]) # <<>> /\ Write(i, [op |-> "pop"], Popped(objs[i])))
 
-Next == \E i \in 1..NObj : \/ \E j \in 1..NObj : Call(i, j)
-                           \/ SetOp(i) \/ LabelOp(i) \/ ReinsOp(i) \/ GrowOp(i)
+Next == \/ \E i \in 1..NObj : \/ \E j \in 1..NObj : Call(i, j) \/ Rebuild(i, j)
+                              \/ CallIn(i)
+                              \/ SetOp(i) \/ LabelOp(i) \/ ReinsOp(i) \/ GrowOp(i)
+        \/ Skip
 \* S2C generator: the complete histories
 \* (the first entry of a recorded history carries the initial objects)
-Emit == n = Bound /\ first = <<>> /\ first' = <<1>> /\ PrintT(ToJson([hist |-> hist])) /\ UNCHANGED <<objs, hist, n, memo>>
-InitGen == /\ objs \in Configs /\ n = 0 /\ memo = <<>> /\ first = <<>>
-           /\ hist = <<[op |-> "init", init |-> objs]>>
+Emit == n = Bound /\ first = <<>> /\ first' = <<1>> /\ PrintT(ToJson([hist |-> hist])) /\ UNCHANGED <<objs, hist, n, memo, cmemo, sess, last>>
+InitGen == /\ ((objs \in Configs /\ sess = FALSE) \/ (objs \in SessConfigs /\ sess = TRUE))
+           /\ n = 0 /\ memo = <<>> /\ first = <<>> /\ last = <<>> /\ cmemo = <<>>
+           /\ hist = <<[op |-> "init", init |-> objs, sess |-> sess]>>
 NextGen == Next \/ Emit
+\* the sessions alone (simulation of longer ones)
+InitSess == InitGen /\ sess = TRUE
 
 \* ---- invariants ------------------------------------------------------------------------------
 \* the state stays inside the descriptor language, whatever is written
@@ -98,4 +191,15 @@ SelfNow == \A k \in 1..NObj : PinC(objs[k], objs[k]) = "T" /\ Pin(Norm(objs[k]),
 \* mechanism: an identity-keyed memo of earlier answers is admitted by what the statement pins NOW - to be REFUTED
 MemoAdmitted == \A m \in 1..Len(memo) : LET i == memo[m][1][1]  j == memo[m][1][2] IN
                     memo[m][2] = "free" \/ Answer(i, j) \in {"free", memo[m][2]}
+\* mechanism: a memo keyed by the pair of classes of the operands is admitted for every pair of live objects of those classes - to be REFUTED
+ClassMemoAdmitted == \A m \in 1..Len(cmemo) : \A i, j \in 1..NObj :
+                        (<<ClassOf(i), ClassOf(j)>> = cmemo[m][1] /\ cmemo[m][2] # "free") => Answer(i, j) \in {"free", cmemo[m][2]}
+\* sessions: the pinned answers tell the objects of a configuration apart (the collisions are collisions, not equalities):
+\* some pair is pinned equal, some pair of the same classes pinned unequal
+SessionsCollide == (sess /\ n = 0) => \E i, j, a, b \in 1..NObj :
+                        /\ i # j /\ a # b /\ Answer(i, j) = "T" /\ Answer(a, b) = "F"
+                        /\ (<<ClassOf(i), ClassOf(j)>> = <<ClassOf(a), ClassOf(b)>> \/ \A k \in 1..NObj : IsLeaf(objs[k]))
+\* in_ is membership under the law: what is expected of in_ is what EqC says when nothing is left free
+InLaw == sess => \A i \in 1..NObj : LET w == InWant(i) IN
+                    Len(w) = 1 => (w[1] = "T") = (\E k \in 1..NObj : k # i /\ EqC(objs[i], objs[k]))
 =============================================================================
